@@ -6,6 +6,7 @@ import (
 	"fmt"
 	"go/ast"
 	"go/constant"
+	"go/printer"
 	"go/token"
 	"go/types"
 	"regexp"
@@ -482,13 +483,16 @@ func toJSTypeTable(c *ctx.Ctx) (map[types.BasicKind]string, string) {
 	return out, ""
 }
 
+// nodeString renders a node with go/printer: canonical formatting, comments dropped.
 func nodeString(c *ctx.Ctx, n ast.Node) string {
-	pos, end := c.Fset.Position(n.Pos()), c.Fset.Position(n.End())
-	b, err := readFileAbs(c, pos.Filename)
-	if err != nil || end.Offset > len(b) {
+	if n == nil {
 		return ""
 	}
-	return string(b[pos.Offset:end.Offset])
+	var sb strings.Builder
+	if err := (&printer.Config{Mode: printer.RawFormat, Tabwidth: 8}).Fprint(&sb, c.Fset, n); err != nil {
+		return ""
+	}
+	return sb.String()
 }
 
 func readFileAbs(c *ctx.Ctx, abs string) ([]byte, error) {
